@@ -17,21 +17,21 @@ def declare(ct):
     ct.field_inv[("KaryPartition", "K")] = ("K >= 2", lambda t: t >= 2)
     ct.field_inv[("RandomKaryPartition", "K")] = ("K >= 2", lambda t: t >= 2)
     # ---- node classes of the algorithms
-    F("HOO_node", b_value="float", u_value="float", visited_times="int", rewards="list[real]", mean_reward="real")
-    F("HCT_node", b_value="float", u_value="float", visited_times="int", rewards="list[real]", mean_reward="real")
-    F("VHCT_node", b_value="float", u_value="float", visited_times="int", rewards="list[real]", mean_reward="real",
+    F("HOO_node", b_value="float", u_value="float", visited_times="int", rewards="list[real:reward]", mean_reward="real")
+    F("HCT_node", b_value="float", u_value="float", visited_times="int", rewards="list[real:reward]", mean_reward="real")
+    F("VHCT_node", b_value="float", u_value="float", visited_times="int", rewards="list[real:reward]", mean_reward="real",
       minvariance="real", variance="real", tau="real")
     F("DOO_node", b_value="float", reward="float", visited="bool")
     F("SOO_node", reward="float", visited="bool")
-    F("StoSOO_node", b_value="float", visited_times="int", rewards="list[real]", mean_reward="real")
-    F("SequOOL_node", rewards="list[real]", mean_reward="real", opened="bool")
-    F("StroquOOL_node", visited_times="int", opened="bool", rewards="list[real]", mean_reward="float")
-    F("VROOM_node", reward="list[real]", rank="list[int]", reward_tilde="list[real]")
+    F("StoSOO_node", b_value="float", visited_times="int", rewards="list[real:reward]", mean_reward="real")
+    F("SequOOL_node", rewards="list[real:reward]", mean_reward="real", opened="bool")
+    F("StroquOOL_node", visited_times="int", opened="bool", rewards="list[real:reward]", mean_reward="float")
+    F("VROOM_node", reward="list[real:reward]", rank="list[int]", reward_tilde="list[real:rtilde]")
     # ---- algorithms
     F("T_HOO", partition="ref:Partition", iteration="int", nu="real", rho="real", rounds="int",
       path="list[ref:$N]", late=("path",))
     F("HCT", partition="ref:Partition", iteration="int", nu="real", rho="real", delta="real", c="real", c1="real",
-      tau_h="list[real]", curr_node="ref:$N", path="list[ref:$N]", late=("curr_node", "path"))
+      tau_h="list[real:tau]", curr_node="ref:$N", path="list[ref:$N]", late=("curr_node", "path"))
     F("VHCT", partition="ref:Partition", iteration="int", nu="real", rho="real", delta="real", bound="real", c="real",
       c1="real", curr_node="ref:$N", path="list[ref:$N]", late=("curr_node", "path"))
 
